@@ -62,6 +62,12 @@ Proof. exact spec_step_nodup. Qed.
 Print Assumptions C08_spec_set_nodup.
 
 (* ---------------------------------------------------------------- Headers laws *)
+(* Case folding: the code compares header names with str.lower() in EVERY read and mutator (_get_key, getlist, set,
+   remove, __delitem__, __eq__, HeaderSet), never with casefold(); the comparison expressions are regenerated into Gen.v,
+   where lower is modelled on ASCII, the claimed domain.  Names outside ASCII that are equal under casefold() or upper()
+   but different under lower() (sharp s and ss, long s and s, final sigma and sigma, the fi ligature) are therefore
+   DIFFERENT names; the harness runs them against a reference that folds with lower().  EnvironHeaders maps a name to its
+   environ key with upper(), which is a known finding for such names. *)
 Theorem C08_headers_read_consistency : forall h k,
   hd_get_key h k = hd_error (hd_getlist h k) /\
   hd_contains h k = negb (Nat.eqb (length (hd_getlist h k)) 0) /\
